@@ -129,14 +129,13 @@ Proof.
   destruct (Z.eqb_spec (2 ^ (d + Z.log2 (tm_tileWidth root) + 4)) 0); [lia|discriminate].
 Qed.
 
-(** without them it does panic: witnesses on a built-in set (known finding F8) *)
-Definition wm : outcome tms := decodeTMS gen_doc_WebMercatorQuad.
+(** without them it does panic: witnesses on a built-in set (known finding F12) *)
+Lemma validate_panics_empty_ids : exists t, decodeTMS gen_doc_WebMercatorQuad = Ok t /\ validate t [] = VPanic.
+Proof. eexists. split; [vm_compute; reflexivity|vm_compute; reflexivity]. Qed.
 
-Lemma validate_panics_empty_ids : exists t, wm = Ok t /\ validate t [] = VPanic.
-Proof. unfold wm. eexists. split; [vm_compute; reflexivity|vm_compute; reflexivity]. Qed.
-
-Lemma validate_panics_deep_id : exists t, wm = Ok t /\ validate t [52] = VPanic /\ validate t [51] = Accept /\ validate t [-13] = VPanic.
-Proof. unfold wm. eexists. split; [vm_compute; reflexivity|]. repeat split; vm_compute; reflexivity. Qed.
+Lemma validate_panics_deep_id : exists t, decodeTMS gen_doc_WebMercatorQuad = Ok t /\
+  validate t [52] = VPanic /\ validate t [51] = Accept /\ validate t [-13] = VPanic.
+Proof. eexists. split; [vm_compute; reflexivity|]. repeat split; vm_compute; reflexivity. Qed.
 
 (** ** The built-in sets, by computation over the regenerated documents *)
 Definition builtin_names : list string :=
